@@ -1,22 +1,21 @@
-"""Per-property check specifications: Lean modules, driver, harness binary, streams."""
+"""Per-property check specifications are JSON files under tools/propspec/Cxx.json:
+{
+  "streams": [{"name": "...", "quick": N, "thorough": M, "mode": "eq"|"oracle-only", "args": [], "timeout": s}],
+  "lean_modules": ["Snel.Props.Cxx"],        (default)
+  "bin": "cxx", "driver": "drv_cxx",          (defaults)
+  "trusted": [...], "assumptions": [...], "rule": "...",
+  "extra_axioms": [], "axiom_prefixes": []    (e.g. bv_decide axioms accepted for this property, declared)
+}"""
+import json, os, glob
 
 TRUSTED_BASE = [
     "Lean 4.33 kernel (thorough tier: re-checked by leanchecker)",
     "axioms per theorem as listed under coverage.theorems (expected subset of propext, Classical.choice, Quot.sound)",
     "hand-written Lean model: validated against the Rust code by the correspondence streams, not verified",
-    "tools/extract_consts.py (regex extraction of constants from the Rust sources; fails closed)",
+    "tools/extract_consts.py and its plugins (regex extraction of constants/tables from the Rust sources; fails closed)",
     "the Rust harness (/verif/harness), its generators, canonicalisation and ./check's line diff",
 ]
 
-PROPS = {
-    "C18": {
-        "streams": [
-            {"name": "idgen", "quick": 1500, "thorough": 40000},
-        ],
-        "trusted": ["clock hook: verif::id_clock_millis replaces SystemTime::now in current_millis()"],
-        "assumptions": [
-            "clock readings lie in [2021-01-01, 2021-01-01 + 2^42 ms) (ids below the custom epoch collapse by saturating_sub)",
-            "generator state is not persisted: across a restart the theorem needs the new clock to be later (C18_restart_partial)",
-        ],
-    },
-}
+PROPS = {}
+for _p in sorted(glob.glob(os.path.join(os.path.dirname(os.path.abspath(__file__)), "propspec", "C*.json"))):
+    PROPS[os.path.basename(_p)[:-5]] = json.load(open(_p))
